@@ -299,6 +299,23 @@ def main():
     L.append("def close_sequence : List CStep := [%s]" % ", ".join('.%s' % x for x in close_seq))
     L.append(f"def close_single_guard : Nat := {close_b.count('acquire_internal')}")
 
+    # ---- one lock acquisition per critical section (C03)
+    sdrop = block_after(fut, r"impl<T>\s*Drop\s+for\s+SendFuture") or ""
+    rdrop = block_after(fut, r"impl<T>\s*Drop\s+for\s+ReceiveFuture") or ""
+    all_fns = dict(send_fns); all_fns.update(recv_fns)
+    order = ["send", "send_timeout", "send_option_timeout", "try_send", "try_send_option", "try_send_realtime", "try_send_option_realtime",
+             "send_future_poll", "recv", "recv_timeout", "try_recv", "try_recv_realtime", "drain_into", "recv_future_poll"]
+    L.append("/-- lock acquisitions (blocking + try) per entry point: " + ", ".join(order) + " -/")
+    L.append("def lock_counts : List Nat := [%s]" % ", ".join(str(len(re.findall(r'acquire_internal\(', all_fns.get(f, "")))) for f in order))
+    macro_shared = block_after(lib, r"macro_rules!\s*shared_impl") or ""
+    obs = ["is_bounded", "len", "is_empty", "is_full", "capacity", "receiver_count", "sender_count", "close", "is_closed"]
+    L.append("/-- lock acquisitions of the shared observers and close: " + ", ".join(obs) + " -/")
+    L.append("def observer_lock_counts : List Nat := [%s]" % ", ".join(str(len(re.findall(r'acquire_internal\(', (fn_bodies(macro_shared, f) or [""])[0]))) for f in obs))
+    sdrop_n = len(re.findall(r'acquire_internal\(', sdrop)); rdrop_n = len(re.findall(r'acquire_internal\(', rdrop))
+    L.append("def future_drop_lock_counts : List Nat := [%d, %d]" % (sdrop_n, rdrop_n))
+    reacq = [f for f in order if re.search(r"drop\(internal\)[^}]*\binternal\s*=\s*acquire_internal", all_fns.get(f, ""), re.S)]
+    emit_nat("reacquire_after_release_sites", len(reacq))
+
     # ---- internal.rs list functions
     for fn, flagtest in (("next_send", r"if\s+self\.recv_blocking\s*\{\s*return\s+None"), ("next_recv", r"if\s*!self\.recv_blocking\s*\{\s*return\s+None")):
         b = (fn_bodies(internal, fn) or [""])[0]
